@@ -29,7 +29,8 @@ func validatePerBlockReward(r interface{}) error {
 		if len(rr.Denom) == 0 {
 			return fmt.Errorf("denom of per block reward can not be empty")
 		}
-		if rr.IsNegative() {
+		// the amount is nil when the JSON value of a parameter-change proposal omits it
+		if rr.Amount.IsNil() || rr.IsNegative() {
 			return fmt.Errorf("invalid per block reward: %v", rr)
 		}
 	}
